@@ -294,6 +294,26 @@ type devRun struct {
 	prefill bool
 	sigfill bool
 	sgPending int
+	// every message as it was received (the slice itself) and a copy of its bytes at that moment: a device that re-uses
+	// the buffer of a message it has already sent changes what a receiver that lags behind will read
+	sentRef  []midi.Event
+	sentCopy [][]byte
+}
+
+// aliasing reports a message whose bytes changed after it had been received ("" if none)
+func (r *devRun) aliasing() string {
+	for i, m := range r.sentRef {
+		c := r.sentCopy[i]
+		if len(m) != len(c) {
+			return fmt.Sprintf("message %d was %x when it was sent and is %x now", i+1, c, []byte(m))
+		}
+		for j := range c {
+			if m[j] != c[j] {
+				return fmt.Sprintf("message %d was %x when it was sent and is %x now (the device re-used its buffer)", i+1, c, []byte(m))
+			}
+		}
+	}
+	return ""
 }
 
 // tightOutput makes the device write into a small channel that nobody reads while an event is being handled: the
@@ -432,6 +452,10 @@ func (r *devRun) drain() ([][]int, int) {
 			b[i] = int(x)
 		}
 		o = append(o, b)
+		if len(r.sentRef) < 4096 {
+			r.sentRef = append(r.sentRef, m)
+			r.sentCopy = append(r.sentCopy, append([]byte(nil), m...))
+		}
 	}
 	// order of emission: what send() took while it waited, what the mover goroutine of a disconnect step carried over,
 	// what still sits in the tight channel
@@ -682,6 +706,11 @@ func cmdDevice(args []string) error {
 			}
 			if alive {
 				r.finish()
+			}
+			if msg := r.aliasing(); msg != "" {
+				if err := enc.Encode(stepOut{Ev: "crash", O: [][]int{}, Msg: msg}); err != nil {
+					return err
+				}
 			}
 		}
 	}
